@@ -88,6 +88,7 @@ func genGenesis(r *rand.Rand, profile string) Genesis {
 	g.JailSecs = pick(r, []int64{3, 5, 10})
 	g.MinSignedPc = pick(r, []int64{50, 50, 34, 75})
 	g.SlashDownBp = pick(r, []int64{100, 0, 500, 1})
+	g.SlashDblBp = pick(r, []int64{500, 500, 0, 10000, 1, 3333})
 	return g
 }
 
@@ -126,6 +127,9 @@ func genHistory(r *rand.Rand, profile string) History {
 	M := uint64(1_000_000)
 	minUnbond := int64(10) // smallest unbonding time any generated parameter set has
 	lastLong, lastUnbondingRisk := -10, -10
+	withEvidence := r.Intn(2) == 0 // half of the histories carry double-sign evidence
+	var nowAt []int64              // block time (seconds since genesis) by block index
+	var now int64
 	for b := 0; b < nb; b++ {
 		// H-time (DESIGN.md App. A): a validator's record must outlive its last vote, i.e. two consecutive
 		// block intervals stay below the unbonding time (5 s at least in every generated parameter set)
@@ -153,6 +157,66 @@ func genHistory(r *rand.Rand, profile string) History {
 			victim = s.anyActive(r)
 			victimLeft = int(g.Window) + 2 + r.Intn(3)
 			blk.Absent = append(blk.Absent, victim)
+		}
+		now += blk.Dt
+		nowAt = append(nowAt, now)
+		// double-sign evidence: about an active validator, one that is being or has been jailed, one that was removed or just admitted;
+		// of a recent height (sometimes too old for x/evidence), with the power it had or an arbitrary one
+		if withEvidence && b >= 2 && r.Intn(7) == 0 {
+			nev := pick(r, []int{1, 1, 1, 2})
+			for k := 0; k < nev; k++ {
+				var cands []int
+				if len(s.power) > 1 {
+					cands = append(cands, s.anyActive(r), s.anyActive(r))
+				}
+				if id, ok := anyKey(r, s.jailed); ok {
+					cands = append(cands, id)
+				}
+				if id, ok := anyKey(r, s.removed); ok {
+					cands = append(cands, id)
+				}
+				if victim >= 0 {
+					cands = append(cands, victim)
+				}
+				if s.justAdmitted > 0 {
+					cands = append(cands, s.justAdmitted)
+				}
+				if len(cands) == 0 {
+					break
+				}
+				tgt := pick(r, cands)
+				back := pick(r, []int{0, 1, 1, 1, 2, 3, 5, 8, 9})
+				if back > b {
+					back = b
+				}
+				ev := EvSpec{Cons: tgt, Height: int64(b + 1 - back), Time: nowAt[b-back]}
+				if back >= 8 && r.Intn(2) == 0 {
+					ev.Time = now - 31 - int64(r.Intn(20)) // beyond both limits of the evidence window
+				}
+				ev.Power = s.power[tgt]
+				if ev.Power == 0 || r.Intn(3) == 0 {
+					ev.Power = pick(r, []int64{0, 1, 3, 10, 50, 1_000_000, 9_000_000_000_000})
+				}
+				blk.Evidence = append(blk.Evidence, ev)
+				if _, active := s.power[tgt]; active {
+					s.history[tgt] = append(s.history[tgt], s.power[tgt])
+					delete(s.power, tgt)
+					s.jailed[tgt] = true
+				}
+				// hazard: operate on the double signer in the very block that punishes it
+				if r.Intn(2) == 0 {
+					switch r.Intn(4) {
+					case 0:
+						blk.Txs = append(blk.Txs, tx(rm(pick(r, []int{adminID, tgt}), tgt)))
+					case 1:
+						blk.Txs = append(blk.Txs, tx(sp(adminID, tgt, uint64(1+r.Intn(30))*1_000_000, true)))
+					case 2:
+						blk.Txs = append(blk.Txs, tx(MsgSpec{Kind: "unjail", Sender: tgt, Val: tgt}))
+					default:
+						blk.Txs = append(blk.Txs, tx(createMsg(tgt, tgt)))
+					}
+				}
+			}
 		}
 		if r.Intn(15) == 0 && len(s.power) > 1 { // sporadic second absentee (usually not enough to jail)
 			blk.Absent = append(blk.Absent, s.anyActive(r))
@@ -212,7 +276,7 @@ func genHistory(r *rand.Rand, profile string) History {
 			}
 			blk.Txs = append(blk.Txs, TxSpec{Msgs: msgs})
 		}
-		if len(blk.Txs) > 0 || len(blk.Absent) > 0 {
+		if len(blk.Txs) > 0 || len(blk.Absent) > 0 || len(blk.Evidence) > 0 {
 			lastUnbondingRisk = b
 		}
 		h.Blocks = append(h.Blocks, blk)
